@@ -113,6 +113,13 @@ def run_call(d, obj=None):
         if d.get("how") == "compute":
             return algo.compute([d["account"]])
         return algo.validate([d["account"]], "")
+    if op == "algo":
+        # a registered national algorithm object handed a list of components (the observation point C07 uses for Germany)
+        from schwifty.checksum import algorithms
+        algo = algorithms[d["key"]]
+        if d.get("how") == "validate":
+            return algo.validate(list(d["components"]), d.get("expected", ""))
+        return algo.compute(list(d["components"]))
     if op == "obj":
         o = obj if obj is not None else create(d["create"])
         return apply_obj(o, d["what"], d.get("arg"))
